@@ -273,6 +273,8 @@ class ConcretePolicy(FreePolicy):
         import scipy.linalg as sl
         if hermitian:
             w, v = sl.eigh(A.tofloat(), b=None if B is None else B.tofloat())
+            if k is not None:
+                w, v = w[-k:], v[:, -k:]          # subset_by_index = the k largest
         else:
             w, v = sl.eig(A.tofloat(), b=None if B is None else B.tofloat())
         return asobj(w), asobj(v)
@@ -505,6 +507,14 @@ def eigh(A, b=None, overwrite_a=False, overwrite_b=False, check_finite=True, sub
 def eigs(A, k=6, M=None, sigma=None, v0=None, **kw):
     A = asobj(A)
     B = None if M is None else asobj(M)
+    if isinstance(policy(), ConcretePolicy):
+        # translation validation: the real ARPACK call (k eigenvalues nearest sigma)
+        from scipy.sparse.linalg import eigs as _eigs
+        w, v = _eigs(A.tofloat(), k=k, M=None if B is None else B.tofloat(), sigma=None if sigma is None else complex(Sc.of(sigma)).real,
+                     v0=None if v0 is None else _np.asarray(asobj(v0).tofloat(), dtype=float))
+        lam, V = asobj(w), asobj(v)
+        _log('eigs', A=A.copy(), B=None if B is None else B.copy(), w=lam, v=V, sigma=sigma, contract=['A V = B V diag(w)'])
+        return lam, V
     lam, V = policy().eig(A, B, hermitian=False, k=k)
     _log('eigs', A=A.copy(), B=None if B is None else B.copy(), w=lam, v=V, sigma=sigma, contract=['A V = B V diag(w)'])
     return lam, V
